@@ -11,3 +11,7 @@ pub use time_types::*;
 
 #[cfg(feature = "std")]
 extern crate std;
+
+#[cfg(all(test, feature = "pendulum_project_ntpd_rs_verif"))]
+#[path = "../../../verif/harness/statime_base/root.rs"]
+mod verif_root;
